@@ -32,3 +32,15 @@ Lemma C05_inst_call_rules_disjoint :
   rules_disjointb (match bl_lookup "Call" blacklist with Some r => r | None => [] end) = true.
 Proof. vm_compute. reflexivity. Qed.
 Print Assumptions C05_inst_call_rules_disjoint.
+
+(* no masking among import rules either: no name of one rule is a dotted prefix of (or equal to) a name of a rule with another
+   id - the built-in check reports one rule per imported name, so an overlap would hide the second rule's finding in the
+   unrestricted run while a run restricted to that rule reports it *)
+Definition import_rules_disjointb (rs : list bl_rule) : bool :=
+  forallb (fun r1 => forallb (fun r2 =>
+    pstr_eqb (bl_id r1) (bl_id r2)
+    || negb (existsb (fun q1 => existsb (fun q2 => Plugins.Blacklist.dotted_prefix_b q1 q2) (bl_qualnames r2)) (bl_qualnames r1))) rs) rs.
+Lemma C05_inst_import_rules_disjoint :
+  import_rules_disjointb (match bl_lookup "Import" blacklist with Some r => r | None => [] end) = true.
+Proof. vm_compute. reflexivity. Qed.
+Print Assumptions C05_inst_import_rules_disjoint.
